@@ -296,12 +296,15 @@ class TrigTime:
                 #
                 new_vars = State.notify_var_get(state_trig_ident, {})
                 state_trig_ok = await state_trig_eval.eval(new_vars)
-                if state_hold_false is not None and not state_check_now:
+                if state_hold_false is not None:
                     #
                     # if state_trig_ok we wait until it is false;
                     # otherwise we consider now to be the start of the false hold time
+                    # (also when state_check_now is set: the initial False counts as the last seen value)
                     #
                     state_false_time = None if state_trig_ok else time.monotonic()
+                if state_hold_false is not None and not state_check_now:
+                    pass
                 elif state_hold is not None and state_trig_ok:
                     state_trig_waiting = True
                     state_trig_notify_info = [None, {"trigger_type": "state"}]
